@@ -19,7 +19,11 @@ CHECK = {
     "props": "Props/C12.v",
     "theorems": ["c12_invariant", "c12_limit", "c12_atomic", "c12_names_roundtrip_partial",
                  "c12_unhinted_names_roundtrip_partial", "c12_exact_is_equal",
-                 "c12_ext_rcode_refuted_prefix", "c12_ext_rcode_kept"],
+                 "c12_ext_rcode_refuted_prefix", "c12_ext_rcode_kept",
+                 "c12_ops_never_panic", "c12_run_never_panics", "c12_no_spurious_truncation_rr",
+                 "c12_no_spurious_truncation_rrset", "c12_no_spurious_truncation_question",
+                 "c12_layout_invariant_all_ops", "c12_roundtrip", "c12_header_invariant", "c12_getters",
+                 "c12_component_table_is_rfc_layout"],
     "allowed_axioms": [],
     "suites": [{
         "name": "writer",
@@ -51,6 +55,7 @@ CHECK = {
         "correspondence: checks/writer_gen.py, checks/writer_check.py, harness/src/bin/impl_c12.rs (catch_unwind; reads HintPointerVec through its Debug output), ocaml/run_c12.ml, line diff in tools/qv.py",
         "tools/gen/writertab.py re-extracts type/class numbers, the Rdata::components match and the components_as_* tables; tools/gen/consts.py the header layout and writer constants",
         "not modelled: the three signing TSIG modes (HMAC) — only TsigMode::Unsigned; usize overflow of sums of buffer-bounded quantities",
+        "Spec/MsgWriterAbsS.v (abstract message of the succeeded operations; the expected RDATA parts use the regenerated component table, proved equal to the RFC layout)",
     ],
     "assumptions": ["octets of the buffer are < 256; names are valid Names (labels 1..63 octets, wire form <= 255)",
                     "hints obey the API contract (checked per case by the specification replay; cases that break it are compared with the model only)"],
@@ -58,18 +63,25 @@ CHECK = {
 
 MANIFEST = {
     "level_text": ("Coq theorems (no axioms) about an executable, panic-faithful model of src/message/writer.rs (every public "
-                   "method, the two-prior-name compression scan, RDATA components, Ttl::from), for ALL operation sequences: the "
-                   "state invariant HEADER_SIZE <= rr_start <= cursor <= available, available + reservations = limit <= |buffer|; "
-                   "the finished message never exceeds the limit in effect; a failed operation leaves every observable field and "
-                   "every octet below the cursor unchanged; and, for every name written under the anchor invariant and the hint "
-                   "contract: no panic, only Truncation, and the octets written decode back to the name given (exactly in "
-                   "case-preserving/disabled mode, modulo ASCII case otherwise). PARTIAL: the message-level round trip, "
-                   "no-spurious-truncation and panic-freedom of whole RR operations are not proved; they are decided on every run "
-                   "by the extracted specification (independent RFC 1035 message decoder + replay of the succeeded operations) "
-                   "evaluated on the implementation's output, after an octet-for-octet differential run model vs. crate."),
+                   "method, the two-prior-name compression scan, RDATA components, Ttl::from), for ALL operation sequences that "
+                   "obey the hint contract (the hint designates an anchor / hint-vector slot issued for a name equal modulo ASCII "
+                   "case): (1) every operation and finish return Ok/Err, never panic, and preserve the full invariant (numeric "
+                   "invariant, anchor invariant, layout invariant) -- in particular across the RDLENGTH back-patch, rollbacks and "
+                   "clear_rrs; (2) MESSAGE-LEVEL ROUND TRIP: the independent RFC 1035 decoder of the specification, applied to the "
+                   "finished message, returns in order the questions and the answer/authority/additional records of the abstract "
+                   "message of the operations that succeeded, then the OPT and TSIG pseudo-records: names exactly (case-preserving/"
+                   "disabled mode) or modulo ASCII case (standard mode), type, class, TTL clamped per RFC 2181, RDATA octets and "
+                   "embedded names, and the header id/QR/opcode/AA/TC/RD/RA/Z/RCODE, the OPT record (UDP size, extended-RCODE upper "
+                   "bits) and the unsigned TSIG record of the settings denoted by the operations; (3) a record/RRset/question operation fails with Truncation only if its UNCOMPRESSED encoding "
+                   "does not fit between cursor and available space; (4) the finished message never exceeds the limit; a failed "
+                   "operation leaves every field and every octet below the cursor unchanged. The extracted specification "
+                   "(independent decoder + replay of the succeeded operations, which also checks getters and hint vectors) keeps "
+                   "running on the implementation's output on every run, after an octet-for-octet differential run model vs. crate."),
     "level_note": ("Trusted: Coq kernel, ExtrOcamlBasic extraction, the hand-written model's correspondence to the Rust code "
                    "(differentially tested on ~3000 operation sequences per quick run, whole buffer compared), the regenerated "
-                   "tables. Signing TSIG modes are outside the model. The OPT-TTL defect (extended RCODE >= 2048 lost) is repaired "
+                   "tables (the component table is PROVED equal to the RFC layout of the specification). Assumed of callers: names "
+                   "are valid Names (labels 1..63 octets, <= 255 octets), types/classes/id are u16, opcode and RCODE 4 bits, RDATA <= 65535 octets, octets < 256. "
+                   "Signing TSIG modes are outside the model. The OPT-TTL defect (extended RCODE >= 2048 lost) is repaired "
                    "by a fix: commit; the model follows the repaired code and keeps a regression theorem about the old one."),
-    "technique": "machine-checked proof in Coq (invariant over all operation sequences) + model/implementation correspondence check + extracted specification decoder as oracle",
+    "technique": "machine-checked proof in Coq (invariants over all operation sequences, refinement to an abstract message, decoder round trip) + model/implementation correspondence check + extracted specification decoder as oracle",
 }
